@@ -2,6 +2,7 @@ import Feox.Props.C03
 import Feox.Fmt.Commit
 import Feox.Fmt.ScanOk
 import Feox.Fmt.Replay
+import Feox.Fmt.Batch
 /-!
 # C03 (continued) — the two transactions of the device protocol, on the bytes
 
@@ -119,5 +120,17 @@ theorem acknowledged_record_survives_crash {img0 img : Image} {v lo total : Nat}
     apply List.mem_append_right
     apply List.mem_map.mpr
     exact ⟨r, List.mem_filter.mpr ⟨hr, by simp only [outside, decide_eq_true_eq]; exact hout⟩, rfl⟩
+
+/-- **Commit of a whole write batch, on the bytes** (several records in pairwise disjoint regions that
+were free when the batch was allocated): `Fmt.commit_batch`. -/
+theorem batch_commit_on_bytes {v lo total : Nat} {info : Gen → RecMeta} (ws : List BW) (img : Image) (d : Disk) (L : List Rec)
+    (hrep : Rep img v lo total info d) (ht : TiledBy d total L lo) (htot : total ≤ img.size)
+    (hok : ∀ w ∈ ws, BWOk v lo total info d w) (hdisj : ws.Pairwise (Disjoint2 v info)) :
+    Rep (applyWrites v info img ws) v lo total info (fillAll v info d ws) ∧
+    ∃ L', TiledBy (fillAll v info d ws) total L' lo ∧
+      (∀ r, r ∈ L' ↔ r ∈ L ∨ r ∈ ws.map (fun w => (w.s, w.g, w.n v info))) ∧
+      ∀ (o : Opts) (journal : List (Nat × Nat)) (st : ScanSt), o.readOnly = false →
+        GoodOutcome info L' st (scan (applyWrites v info img ws) v total o journal lo st) :=
+  commit_batch ws img d L hrep ht htot hok hdisj
 
 end Feox.C03
